@@ -80,6 +80,23 @@ class D8(DataClassDictMixin):
     s: NTJ
     n: int = 0
 
+@dataclass(kw_only=True)
+class D9(DataClassDictMixin):
+    # keyword-only: a defaulted field may precede required ones; the FIRST bad field in declaration order decides
+    q: int = 1
+    item: str
+    price: float
+    z: Optional[int] = None
+
+class NTL(NamedTuple):
+    low: int = 0
+    step: int = 1
+
+@dataclass
+class D10(DataClassDictMixin):
+    lim: NTL = field(metadata={"deserialize": "as_dict"})
+    n: int = 0
+
 @dataclass
 class D4:
     a: float
@@ -87,7 +104,7 @@ class D4:
     i: Inner
 '''
 CLASSES = {"D1": ["a", "b", "c", "d"], "D2": ["a", "e", "l"], "D3": ["a", "u", "t"], "D4": ["a", "m", "i"],
-           "D5": ["raw", "n", "p"], "D6": ["y", "w"], "D7": ["p"], "D8": ["s"]}
+           "D5": ["raw", "n", "p"], "D6": ["y", "w"], "D7": ["p"], "D8": ["s"], "D9": ["q", "item"], "D10": ["lim"]}
 
 ASSUMPTIONS = [
     "CrossHair 0.0.110 model of Python and z3 5.1.0",
@@ -108,6 +125,8 @@ def harnesses(tier, seed):
             subsets += list(itertools.combinations(fields, 2))
         elif cname == "D1":
             subsets += [("a", "b"), ("b", "d"), ("a", "c")]
+        elif cname == "D9":
+            subsets += [("q", "item"), ("q", "price"), ("item", "z")]
         for bad in subsets:
             s = Schema(cname, cname, PRELUDE)
             kw = "bad=%r" % (tuple(bad),)
